@@ -75,6 +75,7 @@ type FnVC struct {
 	immut            map[*ssa.Alloc]ssa.Value
 	siteOrd          map[ssa.Instruction]int
 	fvConst          map[*ssa.FreeVar]Term // immutable captured variables: one constant per variable
+	staleCallees     []string // callees whose contract names identifiers they no longer have: what is proved from them is undecided
 	lenient          bool     // salvage mode after a shape mismatch: call-site clauses that cannot be bound are skipped (recorded in skipped)
 	skipped          []string
 	cellOf           map[types.Object]ssa.Value // variables that live in a cell (closure-captured or address-taken)
@@ -600,11 +601,19 @@ func (vc *FnVC) translate() (err error) {
 		// every call site a contract names must exist
 		for _, ca := range vc.ct.CallAssert {
 			if !vc.matchedSites["assert "+ca.Callee] {
+				if vc.lenient {
+					vc.skipped = append(vc.skipped, fmt.Sprintf("asserts at calls of %q: no such call", ca.Callee))
+					continue
+				}
 				return fmt.Errorf("%s: contract asserts at calls of %q but the function has no such call", vc.qualName(), ca.Callee)
 			}
 		}
 		for _, g := range vc.ct.CallGhost {
 			if !vc.matchedSites["ghost "+g.Callee] {
+				if vc.lenient {
+					vc.skipped = append(vc.skipped, fmt.Sprintf("ghost code at calls of %q: no such call", g.Callee))
+					continue
+				}
 				return fmt.Errorf("%s: contract attaches ghost code to calls of %q but the function has no such call", vc.qualName(), g.Callee)
 			}
 		}
